@@ -34,6 +34,9 @@ var c18ArgLists = []c18Args{
 	{`, null`, []refsem.Value{refsem.Null()}},
 	{`, -12.25, "x", true`, []refsem.Value{refsem.Num(-12.25), refsem.Str("x"), refsem.Bool(true)}},
 	{`, true`, []refsem.Value{refsem.Bool(true)}},
+	// both zeros in one call, in both orders: each directive renders its own argument
+	{`, -0, 0, -0`, []refsem.Value{refsem.Num(math.Copysign(0, -1)), refsem.Num(0), refsem.Num(math.Copysign(0, -1))}},
+	{`, 0, -0, 0`, []refsem.Value{refsem.Num(0), refsem.Num(math.Copysign(0, -1)), refsem.Num(0)}},
 	// whole numbers that are not small integers: negative zero, beyond 2^53, beyond 2^63
 	{`, -0, 9007199254740993, 10000000000000000000`, []refsem.Value{refsem.Num(math.Copysign(0, -1)), refsem.Num(9007199254740993), refsem.Num(1e19)}},
 	{`, {k: 1}, "s"`, []refsem.Value{func() refsem.Value { o := refsem.NewObj(); o.O.Set("k", refsem.Num(1)); return o }(), refsem.Str("s")}},
@@ -99,7 +102,7 @@ func c18Class(f string) string {
 func init() {
 	fw.Register(&fw.Prop{
 		ID: "C18",
-		Rule: "every format string of length <= L over the symbols % s f v d - 0 3 x, times 13 argument lists, plus a width sweep across the 65536 limit; printf lists read, effect, read of one scalar location (the printf programs of C09's copy-time family); " +
+		Rule: "every format string of length <= L over the symbols % s f v d - 0 3 x, times 15 argument lists, plus a width sweep across the 65536 limit; 6 programs whose printf runs the same printf again inside a later argument, once per record; printf lists read, effect, read of one scalar location (the printf programs of C09's copy-time family); " +
 			"a state is a directive-shape class of a format (e.g. %-ws%0wv); non-trivial = classes the model formats successfully with at least one argument list; each case compares exact stdout and outcome with the reference formatter",
 		Plan: func(t fw.Tier) int { return 82 },
 		Bound: func(t fw.Tier) string {
@@ -122,6 +125,10 @@ func init() {
 				c18Sweep(c)
 				// the arguments are rendered as they were when each was evaluated (programs shared with C09)
 				copyTimeRun(c, "printf")
+				for i, pc := range c18Recursive() {
+					pc, i := pc, i
+					c.Do(func() any { return map[string]any{"recursive": i + 1} }, func() *fw.Violation { v, _, _ := pc.check(c); return v })
+				}
 				for _, rev := range []bool{false, true} {
 					rev := rev
 					c.Do(func() any { return map[string]any{"stream": true, "rev": rev} }, func() *fw.Violation { return c18Stream(c, rev) })
@@ -162,6 +169,13 @@ func init() {
 			if v, ok := copyTimeReplay(c, raw); ok {
 				return v
 			}
+			var rc struct {
+				Recursive int `json:"recursive"`
+			}
+			if json.Unmarshal(raw, &rc) == nil && rc.Recursive > 0 {
+				v, _, _ := c18Recursive()[rc.Recursive-1].check(c)
+				return v
+			}
 			var pr struct {
 				Program string  `json:"program"`
 				Fmt     *string `json:"fmt"`
@@ -188,6 +202,27 @@ func init() {
 
 // c18Stream: printf as ONE call site whose format and arguments come from the elements of the input (every format of
 // length <= 4 that the model formats with the arguments ("ab", 1.5), in order and reversed, then one that fails).
+// c18Recursive: a printf whose later argument runs the same printf again (recursion through the call site), entered once per
+// record: every call substitutes its own arguments.
+func c18Recursive() []*progCase {
+	n, f := refsem.V("n"), refsem.V
+	chain := &refsem.Func{Name: "chain", Params: []string{"n"}, Body: refsem.Blk(
+		&refsem.If{Cond: refsem.Bin("<=", n, refsem.N("0")), Then: refsem.Blk(&refsem.Return{X: refsem.S("end")})},
+		refsem.Ex(refsem.CallE(f("printf"), refsem.S("%f -> %s|%5v\n"), n, refsem.CallE(f("chain"), refsem.Bin("-", n, refsem.N("1"))), refsem.Arr_(n))),
+		&refsem.Return{X: refsem.Bin("+", refsem.S("node"), n)})}
+	twice := &refsem.Func{Name: "twice", Params: []string{"n"}, Body: refsem.Blk(
+		&refsem.If{Cond: refsem.Bin("<=", n, refsem.N("0")), Then: refsem.Blk(&refsem.Return{X: refsem.N("0")})},
+		refsem.Ex(refsem.CallE(f("printf"), refsem.S("%3f,%f,%-3f;"), n, refsem.CallE(f("twice"), refsem.Bin("-", n, refsem.N("1"))), refsem.CallE(f("twice"), refsem.Bin("-", n, refsem.N("2"))))),
+		&refsem.Return{X: refsem.Bin("*", n, refsem.N("10"))})}
+	var out []*progCase
+	for _, doc := range []string{`[2,3]`, `[1,1,3,2]`, "3 1\n[2]"} {
+		out = append(out,
+			&progCase{P: &refsem.Program{Funcs: []*refsem.Func{chain}, Rules: []*refsem.Rule{{Body: refsem.Blk(refsem.Pr(refsem.CallE(f("chain"), f("$"))))}}}, Files: []inFile{{"in.json", doc}}},
+			&progCase{P: &refsem.Program{Funcs: []*refsem.Func{twice}, Rules: []*refsem.Rule{{Body: refsem.Blk(refsem.Pr(refsem.CallE(f("twice"), f("$"))))}}}, Files: []inFile{{"in.json", doc}}})
+	}
+	return out
+}
+
 func c18Stream(c *fw.Ctx, rev bool) *fw.Violation {
 	var good []string
 	bad := ""
